@@ -229,6 +229,23 @@ def check_c15(tier, seed):
     finally:
         pool.terminate()
     log('[C15] %d shapes, %d paths, %d symbolic violations' % (stats['shapes'], stats['paths'], len(viols)))
+    # second leg: the layouts the converter really produces from shorthand files (the C14 grammar's accepted derivations)
+    from . import parexplore
+    gstats = {'paths': 0, 'accepted': 0, 'rejected': 0, 'queries': 0}
+    for stage in C15_GRAMMAR_STAGES:
+        outs, npaths, steps, z3c = parexplore.run('mirsym.convcheck', 'c15_grammar_path', (stage,), 'c15_grammar_summary', cut_at=2)
+        gstats['paths'] += npaths
+        stats['mir_steps'] += steps
+        for kind, what, q, program, conc in outs:
+            if kind == 'ok':
+                gstats[what] += 1
+                gstats['queries'] += q
+            elif kind == 'viol':
+                viols.append(('converted: ' + what, conc))
+            elif kind == 'unsupported':
+                oc.inconclusive.append('unsupported construct on a grammar path: %s' % what)
+        log('[C15] grammar stage %-12s done (%.1fs)' % (stage, time.time() - t0))
+    stats['queries'] += gstats['queries']
     # native confirmation
     seen = {}
     for what, conc in viols:
@@ -279,6 +296,9 @@ def check_c15(tier, seed):
         'functions_encoded': ['<keys::Layout/Mapping/Repeat as Serialize>::serialize', '<KeyCode as Serialize>::serialize', 'parse_layout_from_json and all parse_* callees', 'KeyCode::from_str (_parse trie)', 'convert and callees'],
         'models': ['serde Serializer data model -> Value (serdemodel.py)', 'serde_json::Map as sorted association list', 'String/str models'],
         'bounds': 'layouts of <= 3 mappings, triggers <= 3 keys, outputs <= 3 keys, chords <= 2 keys; every key code in each of seven positions (from-final, from-modifier, to, to-middle + repeat key, absorbing, repeat keys, final of a three-key trigger that is also the output)',
+        'converted_layouts_leg': {'what': 'every derivation of the shorthand grammar of C14 (stages %r) that parse_layout_from_json + convert accept is serialised, reloaded and compared the same way, '
+                                          'so "what the converter can produce" is decided by the real converter (aliases, rows, repeat-only entries, absorbing, symbolic 64-bit timings)' % (C15_GRAMMAR_STAGES,),
+                                  'paths': gstats['paths'], 'accepted_and_round_tripped': gstats['accepted'], 'rejected_by_the_loader': gstats['rejected']},
     }
     rc = oc.report()
     write_evidence('C15', tier, seed, cov, ['the model serializer\'s correspondence to serde_json\'s writer (checked on concrete layouts natively every run)',
@@ -966,7 +986,11 @@ def check_c14(tier, seed):
     # panics of the mapper on the layouts of the shared mapper exploration (built-in, README, unit-test layouts, templates;
     # N=3/4): same cache as C01-C09/C19
     from . import mapper_run
-    md = mapper_run.get_results(tier, seed)
+    if os.environ.get('VERIF_SEEDTEST_STOP') == 'C14' and viols:
+        # tools/seedtest.py only: the grammar stages already found a panic; skip the shared mapper exploration
+        md = {'per_prop': {}, 'layouts': [], 'cache_hit': False}
+    else:
+        md = mapper_run.get_results(tier, seed)
     for v in md['per_prop'].get('PANIC', {}).get('violations', []):
         oc.violations.append(('mapper panic', v['desc'], v['case']))
     for u in md['per_prop'].get('PANIC', {}).get('unconfirmed', []):
@@ -1092,6 +1116,46 @@ def c14_summary(it, res):
     if kind == 'viol':
         return ('viol', payload[0], program, None)
     return (kind, payload, program, None)
+
+
+# C15 over what the converter really produces: the C14 grammar's accepted derivations are saved and reloaded
+C15_GRAMMAR_STAGES = ['from-to', 'from-repeat', 'absorbing', 'alias', 'rows']
+
+
+def c15_grammar_path(it, stage):
+    g = G(it)
+    program = g.program(stage)
+    it._program = program
+    st, res = load_value(it, value_of(program))
+    if st != 'ok':
+        return ('rejected', 0)
+    f_ser = mapper.PROG.method('Layout', 'serialize', module='keys', trait='Serialize')
+    orig = layout_to_py(it, res)
+    r = it.run(f_ser, [Ref(Cell(res)), Adt('ValueSerializer', None, [])])
+    if r.variant != 'Ok':
+        raise Violation('C15', 'serialising the converted layout failed', {'layout': orig})
+    st2, res2 = load_value(it, r.f[0])
+    if st2 != 'ok':
+        raise Violation('C15', 'the saved layout is rejected on reload: %s' % (res2 if isinstance(res2, str) else '<message>'), {'layout': orig})
+    stats = {'queries': 0}
+    diff = same_layout(it, orig, layout_to_py(it, res2), stats)
+    if diff is not None:
+        raise Violation('C15', 'the reloaded layout differs: ' + diff, {'layout': orig})
+    return ('accepted', stats['queries'])
+
+
+def c15_grammar_summary(it, res):
+    kind, payload = res
+    if kind == 'ok':
+        return ('ok', payload[0], payload[1], None, None)
+    program = _concretise_prog(it, getattr(it, '_program', None))
+    if kind == 'viol':
+        lay = payload[1].get('layout') if isinstance(payload[1], dict) else None
+        return ('viol', payload[0], 0, program, _concretise_layout(it, lay) if lay is not None else None)
+    if kind == 'panic':
+        # panics of the converter on grammar paths belong to C14; they end the path here
+        return ('panic', payload, 0, program, None)
+    return (kind, payload, 0, program, None)
 
 
 _C13_PROGRAMS = []
